@@ -271,6 +271,27 @@ def gen(ctx):
                     put(img, c1, far_word(RMV, r, 18) ^ 0x1FAB2)
                     put(img, c2, (word ^ 0x20A7B) ^ p)
                 L.append('rm.fmt %s' % img.show())
+    # the WRITING side: what the encoders put into the format / version information modules - both copies of the QR format word
+    # for every (level, mask), both version-information blocks of every version 7-40, the Micro QR word for every
+    # (version, level, mask), both copies of the rMQR word for every (version, level) - read back from the emitted bitmap at
+    # the standard's positions and compared with BCH words computed here
+    from checks import symgen as _sg, refqr as _rq, refmicro as _rm, refrmqr as _rr
+    W = []
+    for level in (0, 1, 2, 3):
+        for mask in range(8):
+            W.append(('qr', 1, level, mask))
+    for ver in range(7, 41):
+        W.append(('qr', ver, 1 + ver % 2, ver % 8))
+    for (ver, level) in _rm.configs():
+        for mask in range(4):
+            W.append(('mq', ver, level, mask))
+    for (ver, level) in _rr.configs():
+        W.append(('rm', ver, level, 0))
+    ctx.c11_written = {}
+    for (sym, ver, level, mask) in W:
+        line = _sg.enc_line(sym, ver, level, mask, [(_sg.ref(sym).MODE['num'], b'1')])
+        ctx.c11_written[line] = (sym, ver, level, mask)
+        L.append(line)
     return L
 
 
@@ -322,6 +343,43 @@ def expect(l):
     return None
 
 
+def written_mismatch(sym, ver, level, mask, o):
+    """None, or (which, got, want) for the first information word of an emitted symbol that is not the standard's"""
+    from checks import refqr as _rq, refmicro as _rm
+    if not o.startswith('ok '):
+        return ('encoder', o[:40], 'ok')
+    img = o[3:]
+    hdr = img.split(':')[0].split(',')
+    w, h = int(hdr[2]), int(hdr[3])
+    if sym == 'qr':
+        want = _rq.format_bits(level, mask)
+        for name, pos in zip(('first format copy', 'second format copy'), qr_pos(w)):
+            got = read(img, pos)
+            if got != want:
+                return (name, '0x%04x' % got, '0x%04x' % want)
+        if ver >= 7:
+            wv = _rq.version_bits(ver)
+            ll = {i: (i // 3, w - 11 + i % 3) for i in range(18)}     # lower-left block: column i/3, row size-11+i%3
+            ur = {i: (w - 11 + i % 3, i // 3) for i in range(18)}     # upper-right block: its transpose
+            for name, pos in (('lower-left version block', ll), ('upper-right version block', ur)):
+                got = read(img, pos)
+                if got != wv:
+                    return (name, '0x%05x' % got, '0x%05x' % wv)
+        return None
+    if sym == 'mq':
+        pos = {i: (8, 1 + i) for i in range(8)}
+        pos.update({j: (15 - j, 8) for j in range(8, 15)})
+        got, want = read(img, pos), _rm.format_bits(ver, level, mask)
+        return None if got == want else ('format word', '0x%04x' % got, '0x%04x' % want)
+    c1, c2 = rm_pos(w, h)
+    word = RMV[ver + 32 * level]
+    for name, pos, mk in (('first copy', c1, 0x1FAB2), ('second copy', c2, 0x20A7B)):
+        got = read(img, pos)
+        if got != word ^ mk:
+            return (name, '0x%05x' % got, '0x%05x' % (word ^ mk))
+    return None
+
+
 _FULL = {}
 
 
@@ -330,7 +388,17 @@ def oracle(ctx, lines, out):
     cnt = {}
     _FULL.clear()
     _FULL.update(getattr(ctx, 'c11_full', {}))
+    written = getattr(ctx, 'c11_written', {})
     for l, o in zip(lines, out):
+        if l in written:
+            sym, ver, level, mask = written[l]
+            bad = written_mismatch(sym, ver, level, mask, o)
+            if bad:
+                key = '%s.written:%s' % (sym, bad[0])
+                cnt[key] = cnt.get(key, 0) + 1
+                if cnt[key] <= 3:
+                    v.append({'key': key, 'lines': [l], 'expect': bad[2], 'got': bad[1], 'detail': '%s v%d l%d mask %d: %s holds %s, the standard word is %s' % (sym, ver, level, mask, bad[0], bad[1], bad[2])})
+            continue
         e = expect(l)
         if e is None or o.startswith('bad-op'):
             continue
